@@ -1,8 +1,9 @@
 """Observe-server driver (property C08).
 
 A real server Context (TokenManager / MessageManager / udp6 on the fake
-network, virtual time) whose site carries one observable test resource at
-/obs with a state counter.  The schedule is what the environment does: raw
+network, virtual time) whose site carries the observable test resources /obs
+(resource number q = 1) and /obs2 (q = 2), each with a state counter of its own,
+and the plain resource /other.  The schedule is what the environment does: raw
 datagrams of scripted observers (register / deregister / plain GET, ACK and RST
 to notifications), state changes of the resource (bursts, unsuccessful / last
 responses), ICMP errors, shutdown.  The trace is what the implementation did.
@@ -15,10 +16,24 @@ schedule = {
   "rgate":   True: the renderer of every notification (not of the first response) samples the state and
              then suspends on a gate until a `release` step (whatever is still suspended when the steps
              are over is released then, so that the run reaches quiescence),
+  "fgate":   True: the FIRST rendering of every registration suspends on a gate as well (released the same
+             way): with a CON request the piggy-back opportunity runs out after EMPTY_ACK_DELAY (empty ACK)
+             and the first response becomes a separate response,
+  "fdelay":  units the first rendering of a registration sleeps after reading the state,
+  "nonrender": True: every response the resource produces (rendered or explicit) asks for unreliable
+             transmission (transport_tuning=Unreliable): notifications of a CON registration are NON,
+  "big":     "app": the representation of the observable resources has three blocks (2208 bytes) and the
+             resource does the block-wise transfer itself (needs_blockwise_assembly() is False; every
+             rendering is cut according to the request's Block2 option, default 0/-/6, and carries
+             Block2 num/more/szx -- so the first response and the notifications carry Observe AND Block2);
+             "lib": the same representation, left to the library (the Observe path sends it whole, plain
+             GETs go through Block2Cache),
   "steps":   [{"at": units, "do": ...}]
        rx      r, ty, code, mid (int | {"notif": n}: mid of the n-th distinct separate notification
-               sent to r), tok (hex), observe (0 | 1 | None), path (default ["obs"])
-       change  n (burst length, default 1; no yielding inside the burst) | xs (list of variants, one burst),
+               sent to r), tok (hex), observe (0 | 1 | None), path (default ["obs"]) | q (1 | 2: /obs, /obs2),
+               block2 (None | [num, more, szx]: Block2 option of the request)
+       change  q (resource, default 1),
+               n (burst length, default 1; no yielding inside the burst) | xs (list of variants, one burst),
                x  ""        updated_state()
                   "unsucc"  trigger(4.04) per observer      "last"  trigger(is_last=True) per observer
                   "ok"      trigger(2.05 explicit) per observer
@@ -32,11 +47,15 @@ schedule = {
   "horizon": units | None
 }
 
-Payloads are self-describing: "S<state>/<g>" for a rendering (state number at
-render time = number of state changes so far; g = number of the registration
-whose request object was rendered, 0 for an unregistered request),
-"E<state>/<g>" for an explicit response handed to trigger().
+Payloads are self-describing: "S<state>/<g>/<q>;" for a rendering (state number
+of resource q at render time = number of its state changes so far; g = number of
+the registration whose request object was rendered, 0 for an unregistered
+request), "E<state>/<g>/<q>;" for an explicit response handed to trigger() and for
+an error the resource answers itself.  The large representation repeats that
+marker every 16 bytes, so every block of every size starts with it.
 """
+
+import re
 
 import asyncio
 import zlib
@@ -63,7 +82,14 @@ FIELDS = {
     "g": 0,       # registration number (payload marker, accept, cancelcb, render)
     "n": 0,       # obscount: new count; accept: count before
     "x": "",      # change variant; tx/render: payload kind "S" | "E" | ""
+    "q": 0,       # observable resource: request path (1 /obs, 2 /obs2, 0 other), change, accept, obscount,
+                  # cancelcb, render; payload marker of a response
+    "b2": -1,     # Block2 option as its integer value (16 * num + 8 * more + szx), -1: absent
 }
+
+PATHS = {1: "obs", 2: "obs2"}
+BIG_LEN = 2208
+_MARK = re.compile(rb"^([SE])(\d+)/(\d+)/(\d+);")
 
 TUNING_KEYS = ("ACK_TIMEOUT", "ACK_RANDOM_FACTOR", "MAX_RETRANSMIT", "EMPTY_ACK_DELAY", "EXCHANGE_LIFETIME", "MAX_TRANSMIT_WAIT")
 TYPES = {"CON": 0, "NON": 1, "ACK": 2, "RST": 3}
@@ -87,15 +113,20 @@ def code_class(c):
 
 
 def parse_payload(p):
-    """-> (kind, state, g)"""
-    try:
-        s = p.decode("ascii")
-        if s[:1] in ("S", "E"):
-            a, b = s[1:].split("/")
-            return s[0], int(a), int(b)
-    except (ValueError, UnicodeDecodeError):
-        pass
-    return "", -1, 0
+    """-> (kind, state, g, q)"""
+    m = _MARK.match(p)
+    if m:
+        return m.group(1).decode(), int(m.group(2)), int(m.group(3)), int(m.group(4))
+    return "", -1, 0, 0
+
+
+def marker(kind, s, g, q):
+    return b"%s%d/%d/%d;" % (kind, s, g, q)
+
+
+def big_body(kind, s, g, q):
+    rec = marker(kind, s, g, q).ljust(16, b".")
+    return rec * (BIG_LEN // 16)
 
 
 def run(sched):
@@ -125,7 +156,8 @@ def run(sched):
 
     def msg_fields(m, data):
         o = wire.opt(m, wire.OBSERVE)
-        kind, s, g = parse_payload(m["payload"]) if m["code"] >= 64 else ("", -1, 0)
+        b = wire.opt(m, wire.BLOCK2)
+        kind, s, g, q = parse_payload(m["payload"]) if m["code"] >= 64 else ("", -1, 0, 0)
         return dict(
             ty=wire.TYPE_NAMES[m["type"]],
             mid=m["mid"],
@@ -137,6 +169,8 @@ def run(sched):
             st=s,
             g=g,
             x=kind,
+            q=q,
+            b2=-1 if b is None else wire.from_uint(b),
         )
 
     def build(step):
@@ -152,9 +186,11 @@ def run(sched):
         options = []
         code = step.get("code", 0)
         if 0 < code < 32:
-            options += [(wire.URI_PATH, p.encode()) for p in step.get("path", ["obs"])]
             if step.get("observe") is not None:
                 options.append((wire.OBSERVE, wire.uint(step["observe"])))
+            options += [(wire.URI_PATH, p.encode()) for p in step.get("path") or [PATHS[step.get("q", 1)]]]
+            if step.get("block2") is not None:
+                options.append((wire.BLOCK2, wire.block(*step["block2"])))
         return wire.encode(TYPES[step["ty"]], code, mid, tok, options, b"")
 
     def inject_rx(step):
@@ -193,17 +229,18 @@ def run(sched):
             ev("rx", r=r, ty="?", cls="unparsable")
             return
         f = msg_fields(m, data)
-        f["st"], f["g"], f["x"] = -1, 0, ""
+        f["st"], f["g"], f["x"], f["q"] = -1, 0, "", 0
         path = wire.opts(m, wire.URI_PATH)
         if f["cls"] == "req":
-            f["x"] = "obs" if path == [b"obs"] else "other"
+            f["q"] = {(b"obs",): 1, (b"obs2",): 2}.get(tuple(path), 0)
+            f["x"] = "obs" if f["q"] else "other"
         ev("rx", r=r, **f)
 
     w.net.on_sent = on_sent
 
     async def main():
         from aiocoap import Message, resource
-        from aiocoap.numbers.constants import TransportTuning
+        from aiocoap.numbers.constants import TransportTuning, Unreliable
         from aiocoap.numbers.codes import Code
 
         for k, v in sched.get("tuning", {}).items():
@@ -211,6 +248,14 @@ def run(sched):
                 w.patch(TransportTuning, k, v)
         rdelay = sched.get("rdelay", 0)
         rgate = bool(sched.get("rgate"))
+        fgate = bool(sched.get("fgate"))
+        fdelay = sched.get("fdelay", 0)
+        big = sched.get("big") or None
+        tuning_kw = {"transport_tuning": Unreliable} if sched.get("nonrender") else {}
+        shared = {"nreg": 0, "gates": []}     # registration numbers and suspended renderers across the resources
+
+        def mkmsg(code, kind, s, g, q, large=False):
+            return Message(code=code, payload=big_body(kind, s, g, q) if large else marker(kind, s, g, q), **tuning_kw)
 
         class RegistrationOrder(dict):
             """Stands in for the resource's `set()` of observations with the same interface as far as the
@@ -225,16 +270,15 @@ def run(sched):
                 del self[x]
 
         class Observed(resource.ObservableResource):
-            def __init__(self):
+            def __init__(self, q):
                 super().__init__()
                 if type(self._observations) is set and not self._observations:
                     self._observations = RegistrationOrder()
+                self.q = q
                 self.state = 0
-                self.nreg = 0
                 self.byreq = {}      # id(request object) -> (g, request)   (kept alive: ids stay unique)
                 self.servobs = {}    # g -> ServerObservation still registered (by this harness' book)
                 self.renders = {}    # g -> renderings so far
-                self.gates = []      # (g, r, tok, future) of suspended renderers
 
             def ident(self, request):
                 try:
@@ -243,9 +287,14 @@ def run(sched):
                     r = 0
                 return r, (request.token or b"").hex()
 
+            async def needs_blockwise_assembly(self, request):
+                # "app": the resource cuts its representation itself (the Observe path of the library does not)
+                return big != "app"
+
             async def add_observation(self, request, servobs):
-                self.nreg += 1
-                g = self.nreg
+                shared["nreg"] += 1
+                g = shared["nreg"]
+                q = self.q
                 r, tok = self.ident(request)
                 self.byreq[id(request)] = (g, request)
                 before = len(self._observations)
@@ -253,11 +302,11 @@ def run(sched):
 
                 def accept(cb):
                     def wrapped():
-                        ev("cancelcb", r=r, tok=tok, g=g)
+                        ev("cancelcb", r=r, tok=tok, g=g, q=q)
                         self.servobs.pop(g, None)
                         cb()
 
-                    ev("accept", r=r, tok=tok, g=g, n=before)
+                    ev("accept", r=r, tok=tok, g=g, n=before, q=q)
                     orig_accept(wrapped)
 
                 servobs.accept = accept
@@ -265,63 +314,82 @@ def run(sched):
                 await super().add_observation(request, servobs)
 
             def update_observation_count(self, newcount):
-                ev("obscount", n=newcount)
+                ev("obscount", n=newcount, q=self.q)
 
             async def render_get(self, request):
                 g = self.byreq.get(id(request), (0, None))[0]
                 r, tok = self.ident(request)
                 s = self.state
-                ev("render", r=r, tok=tok, st=s, g=g, x="S")
+                q = self.q
+                ev("render", r=r, tok=tok, st=s, g=g, x="S", q=q)
                 self.renders[g] = self.renders.get(g, 0) + 1
-                if rgate and g and self.renders[g] > 1:
+                first = self.renders[g] == 1
+                if g and ((rgate and not first) or (fgate and first)):
                     fut = w.loop.create_future()
-                    self.gates.append((g, r, tok, fut))
+                    shared["gates"].append((g, r, tok, fut, q))
                     await fut          # cancelled together with the task when the registration ends
+                elif g and first and fdelay:
+                    await asyncio.sleep(fdelay / 1024.0)
                 elif rdelay:
                     await asyncio.sleep(rdelay / 1024.0)
-                return Message(code=Code.CONTENT, payload=b"S%d/%d" % (s, g))
-
-            def release(self, g=None, r=None, tok=None):
-                """Let the oldest matching suspended renderer go on; -> number still suspended"""
-                self.gates = [x for x in self.gates if not x[3].done()]
-                for x in self.gates:
-                    if (g is not None and x[0] == g) or (g is None and r is None) or (g is None and x[1] == r and x[2] == tok):
-                        ev("release", r=x[1], tok=x[2], g=x[0])
-                        x[3].set_result(None)
-                        self.gates.remove(x)
-                        break
-                return len(self.gates)
+                if big != "app":
+                    return mkmsg(Code.CONTENT, b"S", s, g, q, large=bool(big))
+                # the resource's own block-wise transfer: the block the request asks for (default 0/-/6)
+                b2 = request.opt.block2
+                num, szx = (b2.block_number, b2.size_exponent) if b2 is not None else (0, 6)
+                szx = min(szx, 6)
+                size = 1 << (szx + 4)
+                body = big_body(b"S", s, g, q)
+                if num * size >= len(body):
+                    # (kind "S": "E" with g = 0 is reserved for the one message object handed to all observers)
+                    return mkmsg(Code.BAD_REQUEST, b"S", s, g, q)
+                m = Message(code=Code.CONTENT, payload=body[num * size:(num + 1) * size], **tuning_kw)
+                m.opt.block2 = (num, (num + 1) * size < len(body), szx)
+                return m
 
             def change(self, x):
                 self.state += 1
                 s = self.state
-                ev("change", st=s, x=x)
+                q = self.q
+                ev("change", st=s, x=x, q=q)
                 if x == "":
                     self.updated_state()
                 elif x == "unsucc":
                     for g, so in sorted(self.servobs.items()):
-                        so.trigger(Message(code=Code.NOT_FOUND, payload=b"E%d/%d" % (s, g)))
+                        so.trigger(mkmsg(Code.NOT_FOUND, b"E", s, g, q))
                 elif x == "ok":
                     for g, so in sorted(self.servobs.items()):
-                        so.trigger(Message(code=Code.CONTENT, payload=b"E%d/%d" % (s, g)))
+                        so.trigger(mkmsg(Code.CONTENT, b"E", s, g, q))
                 elif x == "last":
                     for g, so in sorted(self.servobs.items()):
                         so.trigger(None, is_last=True)
                 elif x == "shared-unsucc":
-                    self.updated_state(Message(code=Code.NOT_FOUND, payload=b"E%d/0" % s))
+                    self.updated_state(mkmsg(Code.NOT_FOUND, b"E", s, 0, q))
                 elif x == "shared-ok":
-                    self.updated_state(Message(code=Code.CONTENT, payload=b"E%d/0" % s))
+                    self.updated_state(mkmsg(Code.CONTENT, b"E", s, 0, q))
                 else:
                     raise ValueError(x)
+
+        def release(g=None, r=None, tok=None):
+            """Let the oldest matching suspended renderer go on; -> number still suspended"""
+            shared["gates"] = [x for x in shared["gates"] if not x[3].done()]
+            for x in shared["gates"]:
+                if (g is not None and x[0] == g) or (g is None and r is None) or (g is None and x[1] == r and x[2] == tok):
+                    ev("release", r=x[1], tok=x[2], g=x[0], q=x[4])
+                    x[3].set_result(None)
+                    shared["gates"].remove(x)
+                    break
+            return len(shared["gates"])
 
         class Plain(resource.Resource):
             async def render_get(self, request):
                 return Message(code=Code.CONTENT, payload=b"plain")
 
         site = resource.Site()
-        res = Observed()
-        st["res"] = res
-        site.add_resource(["obs"], res)
+        ress = {q: Observed(q) for q in PATHS}
+        st["res"] = ress
+        for q, res_ in ress.items():
+            site.add_resource([PATHS[q]], res_)
         site.add_resource(["other"], Plain())
         ctx = await w.make_context(site=site)
         st["ctx"] = ctx
@@ -347,9 +415,9 @@ def run(sched):
             elif do == "change":
                 # one callback, no yielding: the whole burst hits the lossy trigger slot
                 for x in step.get("xs") or [step.get("x", "")] * step.get("n", 1):
-                    res.change(x)
+                    ress[step.get("q", 1)].change(x)
             elif do == "release":
-                res.release(step.get("g"), step.get("r"), step.get("tok"))
+                release(step.get("g"), step.get("r"), step.get("tok"))
             elif do == "err":
                 ev("err", r=step["r"])
                 w.net.inject_error(sock, sockaddr(step["r"]))
@@ -375,14 +443,14 @@ def run(sched):
             # nothing stays suspended: quiescence means every rendering has finished (a rendering may also
             # begin while the loop is drained, e.g. after a sleeping first rendering: drain again then)
             for _ in range(1000):
-                res.gates = [x for x in res.gates if not x[3].done()]
-                if not res.gates:
+                shared["gates"] = [x for x in shared["gates"] if not x[3].done()]
+                if not shared["gates"]:
                     break
-                res.release()
+                release()
                 await w.loop.settle()
             await w.loop.drain(horizon=None if hz is None else (last_at + hz) / 1024.0)
-            res.gates = [x for x in res.gates if not x[3].done()]
-            if not res.gates:
+            shared["gates"] = [x for x in shared["gates"] if not x[3].done()]
+            if not shared["gates"]:
                 break
         for c in w.loop.exceptions:
             exc = c.get("exception")
@@ -392,7 +460,7 @@ def run(sched):
         meta = {
             "loop_exceptions": [repr(c.get("exception") or c.get("message")) for c in w.loop.exceptions],
             "log_errors": [r.getMessage() for r in w.logcap.errors()][:5],
-            "observations_left": len(res._observations),
+            "observations_left": sum(len(x._observations) for x in ress.values()),
             "incoming_requests_left": None
             if ctx._verif["tman"].incoming_requests is None
             else len(ctx._verif["tman"].incoming_requests),
@@ -437,6 +505,8 @@ def short(e):
     """Compact rendering of an event for notes / samples."""
     k = e["k"]
     if k in ("rx", "tx"):
-        return "%6d %s r%d %s mid=%d tok=%s code=%d obs=%d %s%d/g%d" % (
-            e["t"], k, e["r"], e["ty"], e["mid"], e["tok"], e["code"], e["obs"], e["x"], e["st"], e["g"])
-    return "%6d %s r%d tok=%s st=%d g=%d n=%d %s" % (e["t"], k, e["r"], e["tok"], e["st"], e["g"], e["n"], e["x"])
+        return "%6d %s r%d %s mid=%d tok=%s code=%d obs=%d%s %s%d/g%d/q%d" % (
+            e["t"], k, e["r"], e["ty"], e["mid"], e["tok"], e["code"], e["obs"],
+            "" if e.get("b2", -1) < 0 else " b2=%d/%d/%d" % (e["b2"] >> 4, (e["b2"] >> 3) & 1, e["b2"] & 7),
+            e["x"], e["st"], e["g"], e.get("q", 0))
+    return "%6d %s r%d tok=%s st=%d g=%d n=%d q=%d %s" % (e["t"], k, e["r"], e["tok"], e["st"], e["g"], e["n"], e.get("q", 0), e["x"])
